@@ -43,13 +43,13 @@ MUTANTS = [
      "new": "        acquired = not self._step_lock.locked()\n        if acquired:\n            self._step_lock.acquire(blocking=False)\n",
      "note": "check-then-acquire instead of an atomic try-lock"},
     {"id": "c18-stream-no-unlock-on-completion", "property": "C18", "file": S,
-     "old": "            except:\n                pass\n            finally:\n                release_lock()\n",
-     "new": "            except:\n                release_lock()\n",
+     "old": "            except:\n                pass\n            finally:\n                try:\n                    # externalise while the step lock is still held (see run-step)\n                    if self._external_state_adapter != None:\n                        self._external_state_adapter.save_instance(self._instance_manager._get_instance_state(instance_uuid))\n                finally:\n                    release_lock()\n",
+     "new": "            except:\n                release_lock()\n            if self._external_state_adapter != None:\n                self._external_state_adapter.save_instance(self._instance_manager._get_instance_state(instance_uuid))\n",
      "edits": [("        resp.call_on_close(release_lock)\n", "")],
      "note": "stream unlocks only in its error path (and no release on close)"},
     {"id": "c18-runsteps-no-unlock-on-error", "property": "C18", "file": S,
-     "old": "        except:\n            pass\n        finally:\n            if locked:\n                instance.unlock()\n",
-     "new": "            if locked:\n                instance.unlock()\n        except:\n            pass\n",
+     "old": "        except:\n            pass\n        finally:\n            try:\n                # externalise while the step lock is still held (see run-step)\n                if stepping and self._external_state_adapter != None:\n                    self._external_state_adapter.save_instance(self._instance_manager._get_instance_state(instance_uuid))\n            finally:\n                if locked:\n                    instance.unlock()\n",
+     "new": "            if stepping and self._external_state_adapter != None:\n                self._external_state_adapter.save_instance(self._instance_manager._get_instance_state(instance_uuid))\n            if locked:\n                instance.unlock()\n        except:\n            pass\n",
      "note": "run-steps does not release the lock when a step raises"},
     {"id": "c18-stream-lock-after-first-step", "property": "C18", "file": S,
      "old": "        lock_held = [True]\n",
